@@ -119,7 +119,8 @@ pub fn guarded<T>(prop: &str, f: impl FnOnce() -> T) -> Result<T, Failure> {
         Ok(v) => Ok(v),
         Err(e) => {
             let p = last_panic();
-            if p.contains("/verif/") || p.contains("harness:") {
+            // only a panic raised inside bourse's own sources is a finding about bourse
+            if !p.contains("/repo/") || p.contains("harness:") {
                 eprintln!("HARNESS-ERROR: {}", p);
                 std::panic::resume_unwind(e);
             }
@@ -445,7 +446,7 @@ where
             PartKind::Exhaustive { total, decode, description } => {
                 any_exhaustive = true;
                 let next = AtomicU64::new(0);
-                let chunk: u64 = 2048;
+                let chunk: u64 = (*total / (threads as u64 * 8)).clamp(1, 2048);
                 let skipped = AtomicU64::new(0);
                 let first_fail: Mutex<Option<(u64, C, Failure)>> = Mutex::new(None);
                 std::thread::scope(|s| {
